@@ -18,6 +18,8 @@
      status[n]    "up" | "down" | "rec" (inside Open, running start-up recovery;
                   transport handlers are already bound), pend[n] peers still to
                   recover from, hwsnap[n] the high-water mark loaded when Open started.
+     rtx[n]       (deviation "RecoveryNotSerialised" only) the open recovery transaction
+                  of a node in "rec": peer, operations it decided to apply, what was streamed.
      pendw[n]     an open aspen transaction (tx.Set/Delete done = lease allocated from
                   the digest read at that moment, tx.Commit not yet called).
    net            bag of messages [t, from, to, ops]:
@@ -115,18 +117,19 @@ CONSTANTS Node,         \* node keys (positive integers)
 
 Windows == {"RecoveryUnchecked", "VolatileStore", "StaleFeedback", "MultiLease", "PrematureRemoval"}
 ASSUME Masked \subseteq Windows
-ASSUME Deviations \subseteq {"StaleFeedbackOverwrite", "RecoveryUncheckedApply"}
+ASSUME Deviations \subseteq {"StaleFeedbackOverwrite", "RecoveryUncheckedApply", "RecoveryNotSerialised"}
 
-VARIABLES eng, ctr, store, reps, status, pend, hwsnap, net, faults, restarts,
+VARIABLES eng, ctr, store, reps, status, pend, hwsnap, rtx, net, faults, restarts,
           pendw,                       \* an open aspen tx: lease allocated, not yet committed
           written, got,                \* ghosts: every op ever written; ops delivered to n
           act, seen, chg, lag, bad     \* observers (seen/chg/bad are ghosts)
 
-vars == <<eng, ctr, store, reps, status, pend, hwsnap, net, faults, restarts, pendw, written, got,
+vars == <<eng, ctr, store, reps, status, pend, hwsnap, rtx, net, faults, restarts, pendw, written, got,
           act, seen, chg, lag, bad>>
 
 Sub == {"p", "f"}     \* "p" plain OnChange, "f" IgnoreHostLeaseholder
 
+NoRtx == [p |-> 0, a |-> {}, s |-> {}]
 NoPend == [k |-> "none", var |-> "none", at |-> 0]
 NoEntry == [ver |-> 0, lh |-> 0, var |-> "none", st |-> "none"]
 Op(k, d) == [k |-> k, ver |-> d.ver, lh |-> d.lh, var |-> d.var]
@@ -151,6 +154,7 @@ Init ==
     /\ status = [n \in Node |-> "up"]
     /\ pend = [n \in Node |-> {}]
     /\ hwsnap = [n \in Node |-> 0]
+    /\ rtx = [n \in Node |-> NoRtx]
     /\ net = EmptyBag
     /\ faults = 0 /\ restarts = 0
     /\ pendw = [n \in Node |-> NoPend]
@@ -197,7 +201,7 @@ LocalWrite(n, k, var) ==
     /\ status[n] = "up" /\ pendw[n] = NoPend
     /\ ("MultiLease" \in Masked /\ eng[n][k].var = "none") => \A o \in written : o.k = k => o.lh = n
     /\ Persist(Lease(n, k), k, var)
-    /\ UNCHANGED <<reps, status, pend, hwsnap, net, faults, restarts, pendw, act>>
+    /\ UNCHANGED <<reps, status, pend, hwsnap, rtx, net, faults, restarts, pendw, act>>
 (* DB.OpenTx + tx.Set/Delete (lease allocated from the digest read NOW) ... tx.Commit
    (persisted later, unchecked).  Under the "MultiLease" mask a key has one writer and
    the split is equivalent to LocalWrite, so it is explored only as-is.              *)
@@ -205,19 +209,19 @@ TxSet(n, k, var) ==
     /\ "MultiLease" \notin Masked
     /\ status[n] = "up" /\ pendw[n] = NoPend
     /\ pendw' = [pendw EXCEPT ![n] = [k |-> k, var |-> var, at |-> Lease(n, k)]]
-    /\ UNCHANGED <<eng, ctr, store, reps, status, pend, hwsnap, net, faults, restarts, written, got,
+    /\ UNCHANGED <<eng, ctr, store, reps, status, pend, hwsnap, rtx, net, faults, restarts, written, got,
                    act, seen, chg, lag, bad>>
 TxCommit(n) ==
     /\ status[n] = "up" /\ pendw[n] # NoPend
     /\ Persist(pendw[n].at, pendw[n].k, pendw[n].var)
     /\ pendw' = [pendw EXCEPT ![n] = NoPend]
-    /\ UNCHANGED <<reps, status, pend, hwsnap, net, faults, restarts, act>>
+    /\ UNCHANGED <<reps, status, pend, hwsnap, rtx, net, faults, restarts, act>>
 
 GossipTick(n, p) ==
     /\ status[n] = "up" /\ p # n /\ status[p] # "down"
     /\ Infected(n) # {}
     /\ net' = Send(net, Msg("sync", n, p, Infected(n)))
-    /\ UNCHANGED <<pendw, eng, ctr, store, reps, status, pend, hwsnap, faults, restarts, written, got,
+    /\ UNCHANGED <<pendw, eng, ctr, store, reps, status, pend, hwsnap, rtx, faults, restarts, written, got,
                    act, seen, chg, lag, bad>>
 
 (* filterPersist on a store batch (at most one op per key).  `ackops` is the reply:
@@ -238,13 +242,13 @@ Ingest(n, m, ackops) ==
 RecvSyncWith(m, ackops) ==
     /\ m.t = "sync" /\ status[m.to] # "down"
     /\ Ingest(m.to, m, ackops)
-    /\ UNCHANGED <<pendw, ctr, reps, status, pend, hwsnap, faults, restarts, written, act>>
+    /\ UNCHANGED <<pendw, ctr, reps, status, pend, hwsnap, rtx, faults, restarts, written, act>>
 RecvSync(m) == \E ackops \in AckChoices(m.to, m) : RecvSyncWith(m, ackops)
 
 RecvAck(m) ==
     /\ m.t = "ack" /\ status[m.to] # "down"
     /\ Ingest(m.to, m, {})
-    /\ UNCHANGED <<pendw, ctr, reps, status, pend, hwsnap, faults, restarts, written, act>>
+    /\ UNCHANGED <<pendw, ctr, reps, status, pend, hwsnap, rtx, faults, restarts, written, act>>
 
 Hit(n, d) == reps[n][d.k][d.ver] > Threshold
 SameEntry(n, d) == store[n][d.k].st = "none" \/ SameId(store[n][d.k], d)
@@ -268,23 +272,23 @@ RecvFeedback(m) ==
                          ELSE @[k][v]]]]
           /\ store' = [store EXCEPT ![n] = PutStore(@, {d \in H : MarkApplies(n, d)}, "rec")]
     /\ net' = Take(net, m)
-    /\ UNCHANGED <<pendw, eng, ctr, status, pend, hwsnap, faults, restarts, written, got, act, seen, chg, lag, bad>>
+    /\ UNCHANGED <<pendw, eng, ctr, status, pend, hwsnap, rtx, faults, restarts, written, got, act, seen, chg, lag, bad>>
 
 (* A message whose target is down, or that the masked environment may not deliver,
    can only be lost (no fault budget).                                             *)
 Lose(m) ==
     /\ status[m.to] = "down" \/ (m.t = "fb" /\ status[m.to] # "down" /\ ~FbAllowed(m))
     /\ net' = Take(net, m)
-    /\ UNCHANGED <<pendw, eng, ctr, store, reps, status, pend, hwsnap, faults, restarts, written, got,
+    /\ UNCHANGED <<pendw, eng, ctr, store, reps, status, pend, hwsnap, rtx, faults, restarts, written, got,
                    act, seen, chg, lag, bad>>
 Drop(m) ==
     /\ faults < MaxFaults /\ faults' = faults + 1
     /\ net' = Take(net, m)
-    /\ UNCHANGED <<pendw, eng, ctr, store, reps, status, pend, hwsnap, restarts, written, got, act, seen, chg, lag, bad>>
+    /\ UNCHANGED <<pendw, eng, ctr, store, reps, status, pend, hwsnap, rtx, restarts, written, got, act, seen, chg, lag, bad>>
 Dup(m) ==
     /\ faults < MaxFaults /\ faults' = faults + 1
     /\ net' = net (+) SetToBag({m})
-    /\ UNCHANGED <<pendw, eng, ctr, store, reps, status, pend, hwsnap, restarts, written, got, act, seen, chg, lag, bad>>
+    /\ UNCHANGED <<pendw, eng, ctr, store, reps, status, pend, hwsnap, rtx, restarts, written, got, act, seen, chg, lag, bad>>
 
 Crash(n) ==
     /\ status[n] = "up" /\ restarts < MaxRestarts
@@ -298,13 +302,14 @@ Crash(n) ==
     /\ seen' = [seen EXCEPT ![n] = [s \in Sub |-> {}]]
     /\ chg' = [chg EXCEPT ![n] = [s \in Sub |-> {}]]
     /\ lag' = [lag EXCEPT ![n] = [s \in Sub |-> FALSE]]
-    /\ UNCHANGED <<eng, ctr, pend, hwsnap, net, faults, written, got, bad>>
+    /\ UNCHANGED <<eng, ctr, pend, hwsnap, rtx, net, faults, written, got, bad>>
 
 Restart(n) ==
     /\ status[n] = "down"
     /\ \A p \in Node \ {n} : status[p] # "down"     \* else Open fails (runRecovery error)
     /\ pend' = [pend EXCEPT ![n] = Node \ {n}]
     /\ hwsnap' = [hwsnap EXCEPT ![n] = HighWater(n)]
+    /\ UNCHANGED rtx
     /\ status' = [status EXCEPT ![n] = IF Node = {n} THEN "up" ELSE "rec"]
     /\ UNCHANGED <<pendw, eng, ctr, store, reps, net, faults, restarts, written, got, act, seen, chg, lag, bad>>
 
@@ -318,7 +323,9 @@ Restart(n) ==
    without the supersedes test; the "RecoveryUnchecked" window only exists with it.     *)
 Streamed(p, hw) == {o \in EngOps(p) : o.ver >= hw}
 AsWasRecovery == "RecoveryUncheckedApply" \in Deviations
+NotSerialised == "RecoveryNotSerialised" \in Deviations
 Recover(n, p) ==
+    /\ ~NotSerialised
     /\ status[n] = "rec" /\ p \in pend[n] /\ status[p] # "down"
     /\ \E hw \in (IF AsWasRecovery THEN {hwsnap[n], HighWater(n)} ELSE {hwsnap[n]}) : LET S == Streamed(p, hw) IN
        /\ (AsWasRecovery /\ "RecoveryUnchecked" \in Masked) =>
@@ -327,17 +334,42 @@ Recover(n, p) ==
        /\ got' = [got EXCEPT ![n] = @ \cup S]
     /\ pend' = [pend EXCEPT ![n] = @ \ {p}]
     /\ status' = [status EXCEPT ![n] = IF pend[n] = {p} THEN "up" ELSE "rec"]
+    /\ UNCHANGED <<hwsnap, rtx, pendw, ctr, store, reps, net, faults, restarts, written, act, seen, chg, lag, bad>>
+(* Deviation "RecoveryNotSerialised" (recovery.go up to a990c2d): kv.Open binds the transport
+   handlers and starts the pipeline BEFORE runRecovery, and the recovery transaction of a peer
+   stays open for the whole stream.  Its supersedes reads (RecoverRead: which streamed
+   operations to apply, decided on the digests stored THEN) and its commit (RecoverCommit:
+   those operations written, whatever is stored NOW) are two steps; a gossip request
+   accepted in between (RecvSync/RecvAck on a node in "rec") is overwritten.  Repaired
+   (default): recovery drains the stream, then takes the lock filterPersist holds around each
+   ingress transaction and only then reads, decides and commits: Recover above is atomic.  *)
+RecoverRead(n, p) ==
+    /\ NotSerialised
+    /\ status[n] = "rec" /\ p \in pend[n] /\ status[p] # "down" /\ rtx[n].p = 0
+    /\ LET S == Streamed(p, hwsnap[n]) IN
+       rtx' = [rtx EXCEPT ![n] = [p |-> p, a |-> AccSet(eng[n], S), s |-> S]]
+    /\ UNCHANGED <<eng, ctr, store, reps, status, pend, hwsnap, net, faults, restarts, pendw, written, got,
+                   act, seen, chg, lag, bad>>
+RecoverCommit(n) ==
+    /\ NotSerialised
+    /\ status[n] = "rec" /\ rtx[n].p # 0
+    /\ eng' = [eng EXCEPT ![n] = ApplySet(@, rtx[n].a)]       \* decided earlier, written now
+    /\ got' = [got EXCEPT ![n] = @ \cup rtx[n].s]
+    /\ pend' = [pend EXCEPT ![n] = @ \ {rtx[n].p}]
+    /\ status' = [status EXCEPT ![n] = IF pend[n] = {rtx[n].p} THEN "up" ELSE "rec"]
+    /\ rtx' = [rtx EXCEPT ![n] = NoRtx]
     /\ UNCHANGED <<hwsnap, pendw, ctr, store, reps, net, faults, restarts, written, act, seen, chg, lag, bad>>
 RecoverFail(n) ==
+    /\ rtx[n].p = 0
     /\ status[n] = "rec" /\ \E p \in pend[n] : status[p] = "down"
     /\ status' = [status EXCEPT ![n] = "down"]
     /\ pend' = [pend EXCEPT ![n] = {}]
-    /\ UNCHANGED <<hwsnap, pendw, eng, ctr, store, reps, net, faults, restarts, written, got, act, seen, chg, lag, bad>>
+    /\ UNCHANGED <<hwsnap, rtx, pendw, eng, ctr, store, reps, net, faults, restarts, written, got, act, seen, chg, lag, bad>>
 
 Subscribe(n, s) ==
     /\ WithSubs /\ status[n] = "up" /\ ~act[n][s]
     /\ act' = [act EXCEPT ![n][s] = TRUE]
-    /\ UNCHANGED <<pendw, eng, ctr, store, reps, status, pend, hwsnap, net, faults, restarts, written, got,
+    /\ UNCHANGED <<pendw, eng, ctr, store, reps, status, pend, hwsnap, rtx, net, faults, restarts, written, got,
                    seen, chg, lag, bad>>
 
 Next ==
@@ -345,7 +377,8 @@ Next ==
     \/ \E n \in Node : TxCommit(n)
     \/ \E n, p \in Node : GossipTick(n, p)
     \/ \E m \in BagToSet(net) : RecvSync(m) \/ RecvAck(m) \/ RecvFeedback(m) \/ Lose(m) \/ Drop(m) \/ Dup(m)
-    \/ \E n \in Node : Crash(n) \/ Restart(n) \/ RecoverFail(n) \/ (\E p \in Node : Recover(n, p))
+    \/ \E n \in Node : Crash(n) \/ Restart(n) \/ RecoverFail(n) \/ RecoverCommit(n)
+                       \/ (\E p \in Node : Recover(n, p) \/ RecoverRead(n, p))
     \/ \E n \in Node, s \in Sub : Subscribe(n, s)
 
 Spec == Init /\ [][Next]_vars
